@@ -27,10 +27,11 @@ QUICK = [('Scope_steps_q.cfg', 'step ids: <=2 jobs x <=2 steps, ids none/a/expre
          ('Scope_needs2.cfg', 'needs: <=2 jobs normal/reusable-workflow call, dangling needs'),
          ('Scope_matrix_q.cfg', 'matrix: rows x include (<=1 element) x exclude, second job with literal rows'),
          ('Scope_inputs.cfg', 'inputs/secrets: workflow_call x workflow_dispatch inputs, secrets absent/empty/declared')]
-THOROUGH = [('Scope_steps_t.cfg', 'step ids: <=2 jobs x <=3 steps, ids none/a/b/expression'),
+THOROUGH = [('Scope_steps_t.cfg', 'step ids: <=2 jobs x <=3 steps, ids none/a/expression'),
+            ('Scope_steps3.cfg', QUICK[1][1]),
             ('Scope_steps3j.cfg', 'step ids: <=3 jobs x <=2 steps, ids none/a/expression'),
             ('Scope_needs_q.cfg', QUICK[2][1]),
-            ('Scope_needs_t.cfg', 'needs: 3 jobs normal/call, every needs graph, outputs, all sites'),
+            ('Scope_needs_t.cfg', 'needs: 3 jobs normal/call, every needs graph x declared outputs'),
             ('Scope_needs2.cfg', QUICK[3][1]),
             ('Scope_matrix_t.cfg', 'matrix: rows x include (<=2 elements) x exclude, second job with literal rows'),
             ('Scope_inputs.cfg', QUICK[5][1])]
@@ -99,6 +100,19 @@ def run(ck, tier):
                             sum(1 for s in o['seen'] if s != want), len(o['seen'])),
                          {'kind': 'scope', 'sh': v['sh'], 'site': v['site'], 'ref': v['ref'], 'def': v['def'],
                           'ctx': v['ref']['ctx'], 'site_kind': v['site']['k'], 'verdict': verdict, 'seen': o['seen']})
+    # binding self-test: a vector whose reference is swapped for one with the opposite verdict must be rejected
+    by_site = {}
+    for v in uniq:
+        by_site.setdefault((json.dumps(v['sh'], sort_keys=True), json.dumps(v['site'], sort_keys=True), v['ref']['ctx']), {})[v['def']] = v
+    pair = next((d for d in by_site.values() if True in d and False in d), None)
+    if pair is None:
+        raise Inconclusive('binding self-test: no site with a defined and an undefined reference')
+    forged = dict(pair[True], ref=pair[False]['ref'])
+    so = run_vectors(vplib.subdir('c05self'), [forged], reps)[0]
+    ok = not so['other'] and all(s != (not forged['def']) for s in so['seen'])
+    ck.cov['binding_selftest'] = 'rejected' if ok else 'NOT rejected'
+    if not ok:
+        raise Inconclusive('binding self-test failed: %r' % so)
     ck.cov['evaluations'] += evals
     ck.cov['traces_validated_against_impl'] += len(outs)
     ck.cov['distinct_nontrivial'] += nundef
@@ -135,7 +149,6 @@ def replay(path):
     sd = vplib.subdir('c05r')
     outs = run_vectors(sd, [rp], 16)
     o = outs[0]
-    vplib.run_harness(['scope-render', os.path.join(sd, 'in.jsonl')])
     p = vplib.run_harness(['scope-render', os.path.join(sd, 'in.jsonl')])
     print(p.stdout.decode())
     print('expected: %s; reported in runs: %s %s' % ('defined' if rp['def'] else 'not defined', o['seen'], o['msgs'][:1]))
